@@ -79,6 +79,13 @@ type Job struct {
 	Age       int    `json:"age"`       // seconds since creation
 	LastStart int    `json:"lastStart"` // seconds since last start, -1 = never
 	Shape     int    `json:"shape"`     // jobs with equal shape > 0 are "comparable" (same template, gang shape, preemptibility)
+	Subs      []Sub  `json:"subs"`      // optional flat sub-groups (pod sets); Min is then the sum of their minimums
+}
+
+// Sub is one pod set of a job.
+type Sub struct {
+	Name string `json:"name"`
+	Min  int    `json:"min"`
 }
 
 type Tol struct {
@@ -97,6 +104,7 @@ type Pod struct {
 	Frac   int      `json:"frac"`
 	GpuMem int      `json:"gpuMem"`
 	Devs   int      `json:"devs"`
+	Sub    int      `json:"sub"`   // 1-based index into the job's Subs (0 = default pod set)
 	Phase  string   `json:"phase"` // P | R
 	Node   int      `json:"node"`
 	Term   int      `json:"term"`
@@ -152,6 +160,11 @@ func (sc *Scenario) Normalize() {
 		}
 		if n.Taints == nil {
 			n.Taints = []Taint{}
+		}
+	}
+	for i := range sc.Jobs {
+		if sc.Jobs[i].Subs == nil {
+			sc.Jobs[i].Subs = []Sub{}
 		}
 	}
 	for i := range sc.Pods {
@@ -301,6 +314,9 @@ func BuildPodGroup(sc *Scenario, j int, now time.Time) *enginev2alpha2.PodGroup 
 			Preemptibility:    pre,
 		},
 	}
+	for _, sub := range job.Subs {
+		pg.Spec.SubGroups = append(pg.Spec.SubGroups, enginev2alpha2.SubGroup{Name: sub.Name, MinMember: int32(sub.Min)})
+	}
 	if job.LastStart >= 0 {
 		pg.Annotations[commonconstants.LastStartTimeStamp] = now.Add(-time.Duration(job.LastStart) * time.Second).UTC().Format(time.RFC3339)
 	}
@@ -333,6 +349,9 @@ func BuildPod(sc *Scenario, i int, gen int, now time.Time) *v1.Pod {
 	labels := map[string]string{}
 	for k, v := range p.Labels {
 		labels[k] = v
+	}
+	if p.Sub > 0 && p.Sub <= len(job.Subs) {
+		labels[commonconstants.SubGroupLabelKey] = job.Subs[p.Sub-1].Name
 	}
 	ann := map[string]string{
 		commonconstants.PodGroupAnnotationForPod: job.Name,
